@@ -1,4 +1,6 @@
 """C05 — quantize and delay start tracks on the requested grid; updates switch cleanly."""
+from fractions import Fraction
+
 from .. import sched_gen, sched_impl, sched_suite
 
 PROPERTY = "C05"
@@ -74,7 +76,104 @@ def grid_case(ctx, i):
                        "first_failing_clause": "first tick at or after q*ceil(t/q)+d"})
 
 
+# ---- an update that also changes the interpolation mode (implementation-only oracle) ----------------------------------
+# "Until that tick an updated track keeps playing its old stream and from that tick on only the new one" — the old stream
+# in its OLD rendering (stepped or interpolated), the new one in the new rendering.  The scheduler model has no
+# interpolation (C15 has a model of its own), so this clause is decided on the real Timeline against two reference runs:
+# the same track never updated (ticks before the switch) and a new track of the new stream started on the switch tick
+# (ticks from the switch on).
+
+def interpolation_update_cases(ctx):
+    import math
+    import isobar as iso
+    r = ctx.rng
+
+    class Rec(iso.io.output.OutputDevice if hasattr(iso, "io") else object):
+        def __init__(self):
+            super().__init__()
+            self.now = 0
+            self.calls = []
+
+        def control(self, control=0, value=0, channel=0):
+            self.calls.append((self.now, control, round(float(value), 6), channel))
+
+        def note_on(self, note=60, velocity=64, channel=0):
+            self.calls.append((self.now, "on", note, channel))
+
+        def note_off(self, note=60, channel=0):
+            self.calls.append((self.now, "off", note, channel))
+
+    def stream(cc):
+        n = r.randint(2, 4)
+        return {"control": cc, "value": [r.randint(0, 127) for _ in range(n)], "duration": r.choice([0.5, 1, 1.5])}
+
+    def events(st):
+        return {"control": st["control"], "value": iso.PSequence(list(st["value"])), "duration": st["duration"]}
+
+    def run(tpb, old, old_mode, nticks, upd=None, start_delay=None):
+        dev = Rec()
+        tl = iso.Timeline(tempo=120, output_device=dev, clock_source=sched_impl.DummyClock(ticks_per_beat=tpb))
+        if start_delay is None:
+            tr = tl.schedule(events(old), interpolate=old_mode)
+        else:
+            tr = tl.schedule(events(old), interpolate=old_mode, delay=start_delay) if start_delay > 0 else tl.schedule(events(old), interpolate=old_mode)
+        for t in range(nticks):
+            dev.now = t
+            if upd is not None and t == upd["at"]:
+                tr.update(events(upd["new"]), quantize=upd["q"], delay=upd["d"], interpolate=upd["mode"])
+            tl.tick()
+        return dev.calls
+
+    modes = [None, "none", "linear", "cosine"]
+    for i in range(ctx.scale(150, 6000)):
+        tpb = r.choice([4, 8, 24])
+        old, new = stream(7), stream(r.choice([7, 10]))
+        old_mode, new_mode = r.choice(modes), r.choice(modes)
+        # update(interpolate=None) keeps the track's mode ("none" is the explicit request for a stepped stream)
+        eff_mode = new_mode if new_mode is not None else old_mode
+        at = r.randint(0, 3 * tpb)
+        q = r.choice([0, 1, 0.5, 2])
+        d = r.choice([0, 0, 0.25, 1])
+        if q == 0 and d == 0:
+            d = 0.5
+        t_beats = Fraction(at, tpb)
+        target = (Fraction(q) * math.ceil(t_beats / Fraction(q)) if q else t_beats) + Fraction(d)
+        switch = math.ceil(target * tpb)
+        nticks = switch + 4 * tpb
+        upd = {"at": at, "new": new, "q": q, "d": d, "mode": new_mode}
+        try:
+            got = run(tpb, old, old_mode, nticks, upd)
+            ref_old = run(tpb, old, old_mode, nticks)
+            ref_new = run(tpb, new, eff_mode, nticks, start_delay=float(Fraction(switch, tpb)))
+        except Exception as ex:
+            ctx.note("interpolation update case failed to run: %r" % (ex,))
+            continue
+        before = [c for c in got if c[0] < switch]
+        after = [c for c in got if c[0] >= switch]
+        exp_before = [c for c in ref_old if c[0] < switch]
+        exp_after = [c for c in ref_new if c[0] >= switch]
+        case = {"tpb": tpb, "old": old, "old_mode": old_mode, "new": new, "new_mode": new_mode, "update_at_tick": at, "quantize": q,
+                "delay": d, "switch_tick": switch}
+        ctx.case(("interp-update", repr(sorted(case.items()))), nontrivial=(old_mode or "none") != (eff_mode or "none"), validated=False,
+                 sample=dict(case, calls=len(got)))
+        ctx.count("interp-update:%s->%s" % (old_mode, new_mode))
+        case["effective_new_mode"] = eff_mode
+        if before != exp_before:
+            j = next((j for j, (x, y) in enumerate(zip(before, exp_before)) if x != y), min(len(before), len(exp_before)))
+            ctx.violation("C05:old-stream-changed-before-switch",
+                          "before the switch tick %d the updated track sends %s, the same track never updated sends %s (first difference)"
+                          % (switch, before[j:j + 2], exp_before[j:j + 2]),
+                          {"suite": "c05-interp", "case": case, "first_failing_clause": "keeps playing its old stream until that tick"})
+        elif after != exp_after:
+            j = next((j for j, (x, y) in enumerate(zip(after, exp_after)) if x != y), min(len(after), len(exp_after)))
+            ctx.violation("C05:new-stream-wrong-after-switch",
+                          "from the switch tick %d on the updated track sends %s, a track of the new stream started on that tick sends %s (first difference)"
+                          % (switch, after[j:j + 2], exp_after[j:j + 2]),
+                          {"suite": "c05-interp", "case": case, "first_failing_clause": "from that tick on only the new one"})
+
+
 def run(ctx):
+    interpolation_update_cases(ctx)
     sched_suite.run_suite(ctx, PROF, ctx.scale(2000, 120000), "c05", [], nontrivial, signature_of)
     for i in range(ctx.scale(800, 40000)):
         grid_case(ctx, i)
